@@ -466,7 +466,7 @@ func c10Gen(r *Rng, tier string, idx int) (string, func() string) {
 	case idx == 1:
 		return "src udp opens 1 sched udpBusy", func() string { return lcUDPFail(idx, true) }
 	case idx == 40 || (tier == "thorough" && idx%61 == 17):
-		variant := r.Intn(5)
+		variant := r.Intn(6)
 		bias := b2i(r.Bool())
 		k := r.Range(1, 2)
 		return fmt.Sprintf("src roach opens 0 sched roachSrc variant %d bias %d k %d", variant, bias, k),
